@@ -338,7 +338,7 @@ pub fn run_c31(ctx: &mut Ctx) {
             }
         }
     }
-    let n = ctx.n(200_000, 30_000_000);
+    let n = ctx.n(3_000_000, 60_000_000);
     random_cases!(ctx, n, |r, _i| {
         let flags = gen_flags(&mut r, ClvmFlags::all());
         let cfg = softfork_cfg(&mut r, flags);
